@@ -834,7 +834,9 @@ theorem visitNeighbors_inv2 (nbrs : List (List Nat)) (F0 G : List Face) (href : 
               have hge : F0.length ≤ v := by rw [← hinv.len]; omega
               have hnil : G.getD v [] = [] := by
                 have : F0.getD v [] = [] := by simp [List.getD_eq_getElem?_getD, List.getElem?_eq_none hge]
-                rcases href.orig v with h | h <;> rw [h, this]
+                rcases href.orig v with h | h
+                · rw [h, this]
+                · rw [h, this]; rfl
               have := href.shares cur v hnbr
               rw [hnil] at this
               obtain ⟨e, he, _⟩ := sharesEdge_iff.mp this
